@@ -408,6 +408,169 @@ impl Check for FaultEnumeration {
     }
 }
 
+// ---------------------------------------------------------------------------
+// divergent worker copies (a digest mismatch that comes from the DATA, not from
+// a tampered digest field)
+// ---------------------------------------------------------------------------
+
+#[derive(Clone, Debug, Serialize, Deserialize)]
+pub struct DivergentCase {
+    pub tables: Vec<PqTable>,
+    pub cluster: ClusterSpec,
+    pub statements: Vec<Query>,
+    /// per table: how the copy mounted by the `copy` participants differs
+    /// 0 = identical, 1 = only the first k rows (k from `keep`: a nearly empty, half-finished copy),
+    /// 2 = last row missing, 3 = same rows, other row-group size, 4 = one extra row
+    pub modes: Vec<u8>,
+    pub keep: Vec<u16>,
+}
+
+fn divergent_copy(t: &PqTable, mode: u8, keep: u16) -> PqTable {
+    let mut c = t.clone();
+    let n = c.table.rows.len();
+    match mode % 5 {
+        1 => c.table.rows.truncate(pick_idx(keep, n.min(3) + 1).min(n)),
+        2 => {
+            c.table.rows.pop();
+        }
+        3 => c.layout.row_group_size = if c.layout.row_group_size == 1 { 2 } else { 1 },
+        4 => {
+            if let Some(r) = c.table.rows.first().cloned() {
+                c.table.rows.push(r);
+            }
+        }
+        _ => {}
+    }
+    c
+}
+
+fn divergent_strategy(tier: Tier) -> BoxedStrategy<DivergentCase> {
+    let max_rows = tier.pick(12, 30);
+    (
+        super::c09::tables_with_layout(max_rows, 1, 2),
+        (2usize..=tier.pick(4, 6), any::<u16>(), proptest::collection::vec(any::<bool>(), 8)),
+        proptest::collection::vec(any::<u16>(), 0..120),
+        proptest::collection::vec(any::<u16>(), 0..120),
+        proptest::collection::vec(prop_oneof![1 => Just(0u8), 4 => Just(1u8), 1 => Just(2u8), 1 => Just(3u8), 1 => Just(4u8)], 3),
+        proptest::collection::vec(any::<u16>(), 3),
+    )
+        .prop_map(|(tables, (nodes, sel, copy), tape1, tape2, modes, keep)| {
+            let plain: Vec<Table> = tables.iter().map(|t| t.table.clone()).collect();
+            let cat = Catalog::of(&plain);
+            let (s, _) = Gen::new(tape1, &scatter_profile()).query(&cat, 0);
+            let (mut g, _) = Gen::new(tape2, &gather_profile()).query(&cat, 1);
+            force_gather(&mut g);
+            let self_pos = pick_idx(sel, nodes);
+            let mut copy: Vec<bool> = copy.into_iter().take(nodes).collect();
+            // at least one remote participant mounts the divergent copy
+            if !(0..nodes).any(|i| i != self_pos && copy[i]) {
+                let j = (0..nodes).find(|i| *i != self_pos).unwrap();
+                copy[j] = true;
+            }
+            DivergentCase { tables, cluster: ClusterSpec { nodes, self_pos, copy }, statements: vec![s, g], modes, keep }
+        })
+        .boxed()
+}
+
+pub struct DivergentCopy;
+
+impl Check for DivergentCopy {
+    type Case = DivergentCase;
+    fn name(&self) -> &'static str {
+        "divergent_worker_copy"
+    }
+    fn rule(&self) -> &'static str {
+        "with identical copies the statement had a remote exchange for a table whose worker copy then diverges (other rows / other row groups)"
+    }
+    fn cases(&self, tier: Tier) -> u32 {
+        tier.pick(150, 6000)
+    }
+    fn max_shrink_iters(&self) -> u32 {
+        60
+    }
+    fn strategy(&self, tier: Tier) -> BoxedStrategy<DivergentCase> {
+        divergent_strategy(tier)
+    }
+    fn test(&self, c: &DivergentCase, obs: &mut Obs) -> Verdict {
+        let copies: Vec<PqTable> = c.tables.iter().enumerate().map(|(i, t)| divergent_copy(t, c.modes.get(i).copied().unwrap_or(0), c.keep.get(i).copied().unwrap_or(0))).collect();
+        let diverging: Vec<String> = c.tables.iter().zip(copies.iter()).filter(|(a, b)| a != b).map(|(a, _)| a.table.name.clone()).collect();
+        if diverging.is_empty() {
+            return Verdict::Discard("no_table_diverges".into());
+        }
+        let same = match Cluster::build("c10s", &c.tables, &c.cluster) {
+            Ok(cl) => cl,
+            Err(e) => return Verdict::Discard(format!("cluster:{}", crate::sqlcheck::short_err(&e))),
+        };
+        let div = match Cluster::build_with_copy("c10d", &c.tables, &c.cluster, Some(&copies)) {
+            Ok(cl) => cl,
+            Err(e) => return Verdict::Discard(format!("cluster:{}", crate::sqlcheck::short_err(&e))),
+        };
+        let mut runs = 0u64;
+        for q in &c.statements {
+            let sql = q.sql();
+            let shape = planned_shape(&same.base, &sql).unwrap_or("unplanned");
+            let tr0 = same.transport(vec![]);
+            let base_rows = match run_any_distributed(&same, &sql, &tr0) {
+                DistOutcome::Ok(d) => batches_to_rows(&d.result.batches),
+                _ => {
+                    obs.label(format!("identical_copies:{}:no_answer", shape));
+                    continue;
+                }
+            };
+            let touched = tr0.exchanges().iter().any(|e| diverging.contains(&e.table));
+            obs.label(format!("identical_copies:{}:ok", shape));
+            // The digest interlock covers the table a fragment is a shard OF. A diverging table
+            // that the statement reads but that is not sharded (the other side of a join, read by
+            // every worker from its own copy) is outside what C10/C14 state: not judged.
+            let up = format!(" {} ", sql.to_uppercase().replace(['(', ')', ','], " "));
+            let names = |t: &str| up.contains(&format!(" {} ", t.to_uppercase()));
+            let exchanged: Vec<String> = tr0.exchanges().iter().map(|e| e.table.clone()).collect();
+            if diverging.iter().any(|t| names(t) && !exchanged.contains(t)) {
+                obs.label(format!("divergent:{}:unsharded_table_diverges_not_judged", shape));
+                continue;
+            }
+            let tr = div.transport(vec![]);
+            runs += 1;
+            let outcome = match run_any_distributed(&div, &sql, &tr) {
+                DistOutcome::Err(_) | DistOutcome::NotImplemented(_) => "error",
+                DistOutcome::Panic(p) => {
+                    obs.label(format!("panic:{}", crate::sqlcheck::short_err(&p)));
+                    "panic"
+                }
+                DistOutcome::Ok(d) => {
+                    let rows = batches_to_rows(&d.result.batches);
+                    if multiset_eq(&rows, &base_rows, 1e-12) {
+                        "masked"
+                    } else {
+                        return Verdict::Fail(format!(
+                            "a worker whose copy of {:?} differs from the initiator's answered its fragment: the query returned Ok with an answer that differs from the one over identical copies\n sql: {}\n shape: {}\n cluster: {:?}\n identical copies ({} rows):\n{} divergent copy ({} rows):\n{} copy modes: {:?} (1 = first k rows only, 2 = last row missing, 3 = other row-group size, 4 = extra row)\n worker copy row counts: {:?}\n exchanges: {}\n tables: {}",
+                            diverging,
+                            sql,
+                            shape,
+                            c.cluster.normalized(),
+                            base_rows.len(),
+                            fmt_rows(&base_rows, 20),
+                            rows.len(),
+                            fmt_rows(&rows, 20),
+                            c.modes,
+                            copies.iter().map(|t| (t.table.name.clone(), t.table.rows.len())).collect::<Vec<_>>(),
+                            tr.exchanges().iter().map(|e| format!("[{} {} shard {} status {} rows {}]", e.address, e.table, e.shard_index, e.status, e.rows)).collect::<Vec<_>>().join(" "),
+                            crate::sqlcheck::fmt_tables(&c.tables.iter().map(|t| t.table.clone()).collect::<Vec<_>>())
+                        ));
+                    }
+                }
+            };
+            obs.label(format!("divergent:{}:{}:{}", shape, if touched { "table_exchanged" } else { "table_not_exchanged" }, outcome));
+            if touched {
+                obs.nontrivial(true);
+            }
+        }
+        obs.weight(runs.max(1));
+        obs.sample(serde_json::json!({"statements": c.statements.iter().map(|q| q.sql()).collect::<Vec<_>>(), "modes": c.modes, "nodes": c.cluster.nodes}));
+        Verdict::Pass
+    }
+}
+
 pub fn property() -> Property {
     Property {
         id: "C10",
@@ -417,6 +580,6 @@ pub fn property() -> Property {
             "truncation is enumerated at every Arrow IPC message boundary of the real reply (independent framing walk) and sampled inside messages; corruption offsets are sampled",
             "an Ok answer equal (as a multiset) to the fault-free answer is accepted (the fault was semantically masked); a panic is recorded, not judged here (C29)",
         ],
-        checks: vec![Box::new(FaultEnumeration), Box::new(DecodeProbe)],
+        checks: vec![Box::new(FaultEnumeration), Box::new(DecodeProbe), Box::new(DivergentCopy)],
     }
 }
